@@ -355,8 +355,11 @@ fn step(ctx: &Ctx, env: &Env, st: &Stats, s: &Snap, e: &Ev) -> Snap {
                         if regen || rewritten["out.y.rs"] {
                             ctx.violation("c18-needless", &format!("nothing changed since the last successful build but the parser was regenerated (regenerated() = {}, file rewritten = {}) after [{}]", regen, rewritten["out.y.rs"], hist()), case());
                         }
-                    } else if !regen {
-                        ctx.violation("c18-regenerated-flag", &format!("source or settings changed since the last successful build but regenerated() is false after [{}]", hist()), case());
+                    } else if !regen && s.parser_built_for.is_none() && s.files.contains_key("out.y.rs") && p_ok == Some(true) {
+                        // the grammar was edited (or never built) since the generated file was
+                        // written: "a change to either [source] always causes regeneration". A
+                        // change of settings alone is only judged by the clean-build comparison.
+                        ctx.violation("c18-regenerated-flag", &format!("the grammar changed since the last successful build but regenerated() is false after [{}]", hist()), case());
                     }
                 }
                 if p_ok == Some(true) {
@@ -455,6 +458,49 @@ pub fn run(ctx: Ctx) -> i32 {
             break;
         }
     }
+    // ---- phase 2: start from non-initial states. Every (grammar, lexer) pair with the options
+    // that change what a build *reports* rather than what it generates switched off, then:
+    // build ; one change ; build. (From the all-defaults initial state these histories need five
+    // or more events.)
+    let mut alt_inits: Vec<Snap> = vec![];
+    let off: Vec<Vec<(usize, usize)>> = vec![vec![(4, 1)], vec![(5, 1)], vec![(4, 1), (5, 1)], vec![(6, 1)], vec![]];
+    for g in 0..GRAMMARS.len() {
+        for l in 0..LEXERS.len() {
+            for o in &off {
+                if o.is_empty() && g == 0 && l == 0 {
+                    continue;
+                }
+                let mut sn = Snap { g, l, settings: vec![0; OPTIONS.len()], files: BTreeMap::new(), clock: 0, parser_built_for: None, history: vec![format!("(start from {} / {} with {:?})", GRAMMARS[g].0, LEXERS[l].0, o.iter().map(|(i, v)| format!("{} = {}", OPTIONS[*i].0, OPTIONS[*i].1[*v])).collect::<Vec<_>>())] };
+                for (i, v) in o {
+                    sn.settings[*i] = *v;
+                }
+                sn.files.insert("g.y".into(), FileState { content: GRAMMARS[g].1.as_bytes().to_vec(), mtime: T0 });
+                sn.files.insert("l.l".into(), FileState { content: LEXERS[l].1.as_bytes().to_vec(), mtime: T0 });
+                alt_inits.push(sn);
+            }
+        }
+    }
+    let phase2_ok = ctx.start.elapsed().as_secs_f64() <= wall_cap && ctx.nviolations() <= 200;
+    if phase2_ok {
+        let modes: [&'static str; 2] = ["separate", "both"];
+        let work2: Vec<(usize, &'static str)> = (0..alt_inits.len()).flat_map(|i| modes.iter().map(move |m| (i, *m))).collect();
+        let n2: usize = work2
+            .par_iter()
+            .map(|(i, m1)| {
+                let s1 = step(&ctx, &env, &st, &alt_inits[*i], &Ev::Build(m1));
+                let mut n = 1;
+                for e in events(&s1, true).into_iter().filter(|e| !matches!(e, Ev::Build(_))) {
+                    let s2 = step(&ctx, &env, &st, &s1, &e);
+                    // the second build in the same mode (the mixed modes are covered from the
+                    // default initial state)
+                    let _ = step(&ctx, &env, &st, &s2, &Ev::Build(m1));
+                    n += 2;
+                }
+                n
+            })
+            .sum();
+        states += n2;
+    }
     std::fs::remove_dir_all(&root).ok();
     let builds = env.builds.load(std::sync::atomic::Ordering::SeqCst);
     let skipped = st.skipped_regenerations.load(std::sync::atomic::Ordering::SeqCst);
@@ -477,6 +523,7 @@ pub fn run(ctx: Ctx) -> i32 {
         "max_events": max_events,
         "max_builds": max_builds,
         "completed_depth": completed_depth,
+        "phase2_histories_from_non_initial_states": if phase2_ok { alt_inits.len() * 2 } else { 0 },
         "wall_cap_hit": capped,
         "real_build_steps": builds,
         "builds_where_nothing_had_changed": skipped,
